@@ -25,6 +25,7 @@ DEFAULT_FLAGS = dict(
     internal=True, functions=True, calls=True, intrinsics=True,
     io_in_kernel=False, pragmas=False, comments=True, mixed_case=False,
     continuation=False, semicolons=False, long_expr=False,
+    associate_expr_complex=False, named_cycle_exit=False, double_not=False,
     kinds_module=True, single=False, optional_args=False, strings=False,
     max_stmts=14, max_depth=3, expr_depth=3,
 )
@@ -219,7 +220,12 @@ class ExprGen:
             op = rng.choice(['<', '<=', '>', '>='])
             return f'{a} {op} {b}'
         if kind == 'not':
-            return f'.not. ({self.log_expr(env, depth - 1)})'
+            inner = self.log_expr(env, depth - 1)
+            if inner.startswith('.not.') and not self.flags.get('double_not'):
+                return inner[5:].strip()
+            if inner.startswith('.not.'):
+                self.features.add('double_not')
+            return f'.not. ({inner})'
         a = self.log_expr(env, depth - 1)
         b = self.log_expr(env, depth - 1)
         op = '.and.' if kind == 'and' else '.or.'
@@ -513,7 +519,10 @@ class ProgGen:
         if loop_label and self.flags['cycle_exit'] and self.rng.random() < 0.5:
             self.features.add('cycle_exit')
             kw = self.rng.choice(['cycle', 'exit'])
-            lab = f' {loop_label}' if isinstance(loop_label, str) and self.rng.random() < 0.7 else ''
+            lab = ''
+            if isinstance(loop_label, str) and self.flags.get('named_cycle_exit') and self.rng.random() < 0.7:
+                lab = f' {loop_label}'
+                self.features.add('named_cycle_exit')
             # without label cycle/exit refer to innermost loop which is fine too
             return [f'{ind}if ({self.ex.log_expr(self.env, 1)}) {kw}{lab}']
         a = self.stmt_assign('')[0]
@@ -653,9 +662,15 @@ class ProgGen:
         if rng.random() < 0.4:
             # expression selector (read-only)
             nm = f'ze{nm_i}'
-            e = self.ex.real_expr(env, 1)
+            if self.flags.get('associate_expr_complex'):
+                e = self.ex.damp(self.ex.real_expr(env, 1))
+                self.features.add('associate_expr_complex')
+            else:
+                # selectors restricted to sums/products of variables and literals
+                lv = [x for x in env.real_leaves() if '(' not in x] or [self.ex.rlit()]
+                e = f'{rng.choice(lv)} + {rng.choice(lv)}*{self.ex.rlit()}'
             frame[nm] = ('real', e, 0)
-            items.append(f'{nm} => {self.ex.damp(e)}')
+            items.append(f'{nm} => {e}')
             self.features.add('associate_expr')
         # associate names are used read-only in expressions: the variables they alias must not
         # be written inside the block when the selector is an expression; aliasing a variable is fine.
